@@ -156,6 +156,14 @@ def gen_plan(seed, tier):
         return {"kind": "mixed", "seed": seed, "cut": _cutspec(rng),
                 "nobj": rng.randint(1, 5), "lines": rng.randint(0, 3),
                 "rbufsize": rng.choice([1, 7, 64, 8192])}
+    if m == 23:
+        # a report-status stream (pkt-lines) carried on side-band channel 1
+        # in frames cut anywhere, interleaved with progress frames
+        return {"kind": "nested", "seed": seed,
+                "refs": rng.choice([1, 2, 5, 40]),
+                "longnames": rng.random() < 0.3,
+                "frame": rng.choice([1, 2, 3, 7, 10, 50, 999, 65515]),
+                "cut": _cutspec(rng)}
     if m in (7, 8, 9, 10):
         return {"kind": "oversize", "seed": seed,
                 "size": rng.choice([65516, 65517, 65519, 65520, 65521,
@@ -539,6 +547,62 @@ def run_roundtrip(plan, ctx):
               f"{[[len(x) for x in s] for s in want]}")
 
 
+def run_nested(plan, ctx):
+    """Decoder under test: GitClient._handle_receive_pack_tail (side-band
+    demultiplexing + a pkt-line parser that must keep its state from one
+    frame to the next)."""
+    from dulwich.client import ReportStatusParser, TraditionalGitClient
+    from dulwich.protocol import Protocol
+    rng = random.Random(derive_seed(plan["seed"], "c19nested"))
+    want = {}
+    lines = [b"unpack ok\n"]
+    for i in range(plan["refs"]):
+        name = b"refs/heads/" + (b"n%d" % i if not plan["longnames"] else
+                                 b"long-" + b"x" * rng.randint(50, 200) +
+                                 b"-%d" % i)
+        if rng.random() < 0.3:
+            lines.append(b"ng " + name + b" some reason %d\n" % i)
+            want[name] = "some reason %d" % i
+        else:
+            lines.append(b"ok " + name + b"\n")
+            want[name] = None
+    inner = ref_encode(lines + [None])
+    # channel-1 frames of at most plan["frame"] payload bytes, cut anywhere
+    frames = []
+    pos = 0
+    while pos < len(inner):
+        k = rng.randint(1, plan["frame"])
+        frames.append(b"\x01" + inner[pos:pos + k])
+        pos += k
+        if rng.random() < 0.2:
+            frames.append(b"\x02progress %d\n" % pos)
+    outer = ref_encode(frames + [None])
+    cuts = make_cuts(plan["cut"], len(outer), [])
+    st = ChunkedStream(outer, cuts)
+
+    class C(TraditionalGitClient):
+        def _connect(self, *a, **kw):
+            raise NotImplementedError
+    cl = C()
+    cl._report_status_parser = ReportStatusParser()
+    p = Protocol(buffered_read(st), lambda b: None)
+    ctx.stat("probe:nested_status_stream")
+    ctx.case([util.h8(outer), util.h8(cuts[:100])], True)
+    try:
+        got = cl._handle_receive_pack_tail(
+            p, {b"side-band-64k", b"report-status"}, lambda b: None)
+    except BaseException as e:  # noqa: BLE001
+        ctx.v(f"wrong-exception/nested-report-status/{type(e).__name__}",
+              f"{e!r}; {plan['refs']} refs, frames of <= {plan['frame']} "
+              f"bytes")
+        return
+    if got != want:
+        ctx.v("roundtrip-mismatch/nested-report-status",
+              f"{len(got or {})} of {len(want)} statuses came back "
+              f"(frames of <= {plan['frame']} bytes); missing "
+              f"{sorted(set(want) - set(got or {}))[:2]}")
+
+
 def run_exhaustive(plan, ctx):
     frames = materialise(plan["frames"])
     data = ref_encode(frames)
@@ -823,7 +887,8 @@ def run_mixed(plan, ctx):
               f"{e!r} cuts={cuts[:20]} rbufsize={plan['rbufsize']}")
 
 
-RUNNERS = {"roundtrip": run_roundtrip, "exhaustive": run_exhaustive,
+RUNNERS = {"nested": run_nested,
+           "roundtrip": run_roundtrip, "exhaustive": run_exhaustive,
            "truncate": run_truncate, "garbage": run_garbage,
            "prefix": run_prefix, "oversize": run_oversize,
            "sideband": run_sideband, "caps": run_caps, "mixed": run_mixed}
